@@ -25,6 +25,8 @@ Latitude (statement silent -> both behaviours accepted):
  - not generated: re-registering a still-registered class under another symbol / with another private flag / with a
    contradicting equation, definitions whose Class is a built-in class, validate_impedances=False with a contradicting
    equation (the user opted out of the comparison).
+Out of scope (observed, not judged): register_element(ElementDefinition(Class=<a built-in class>, symbol="Rzz", ...)) is accepted and
+renames the built-in for the rest of the process (reset() does not undo it); the property quantifies over user-defined elements.
 Contradicting equations are generated only when they differ from the numeric impedance by >= 1e3 x numpy.allclose's
 tolerance at the library's five comparison frequencies (worst margin reported in worst_observed).
 """
@@ -55,10 +57,10 @@ ASSUMPTIONS = [
     "numpy/sympy evaluate the template equations correctly (used only to show the generator's margin, not for verdicts)",
 ]
 SHARDS = 16
-CASE_TIMEOUT = 400
+CASE_TIMEOUT = 600
 MIN_EVALS = 500
 WORKER = os.path.join(env.VERIF_DIR, "vlib", "registry_model.py")
-WORKER_TIMEOUT = 300
+WORKER_TIMEOUT = 240
 
 _BINFO = None
 
@@ -71,7 +73,7 @@ def _binfo():
 
 
 def gen_cases(tier, seed):
-    nb, ns = (104, 24) if tier == "quick" else (1100, 160)
+    nb, ns = (88, 24) if tier == "quick" else (700, 100)
     cases = [{"kind": "batch", "seed": [int(seed), i], "count": 25, "tier": tier, "long": False} for i in range(nb)]
     cases += [{"kind": "batch", "seed": [int(seed), 100000 + i], "count": 1, "tier": tier, "long": True} for i in range(ns)]
     # interleave so that every shard gets singles and batches
@@ -119,17 +121,18 @@ def run_case(case):
     # a violation found deep inside a batch: make the witness self-contained (single truncated history in a fresh
     # interpreter if that reproduces the same mechanism, else the batch prefix)
     if case["kind"] != "explicit" and len(histories) > 1:
-        for v in viol[:3]:
+        for n, v in enumerate(viol):
             w = v["witness"]
             single = w["replay_case"]
-            try:
-                again = _run_worker(single["histories"])
-                same = any(x["key"] == v["key"] for r in again["results"] if r.get("executed") for x in r["viol"])
-            except Exception:
-                same = False
-            if not same:
-                j = w["history_index"]
-                w["replay_case"] = {"kind": "explicit", "histories": histories[:j] + single["histories"]}
+            same = False
+            if n == 0:
+                try:
+                    again = _run_worker(single["histories"])
+                    same = any(x["key"] == v["key"] for r in again["results"] if r.get("executed") for x in r["viol"])
+                except Exception:
+                    same = False
+            if not same:  # not (shown to be) reproducible on its own: keep the histories that ran before it in this interpreter
+                w["replay_case"] = {"kind": "explicit", "histories": histories[: w["history_index"]] + single["histories"]}
                 w["needs_batch_prefix"] = True
     maxobs = dict(res["maxobs"])
     maxobs["interpreter_import_s"] = float(res["import_s"])
